@@ -14,6 +14,9 @@ def main():
     ap.add_argument("--only", help="run only scenarios whose name contains this")
     a = ap.parse_args()
     seed = int(os.environ.get("VERIF_SEED", "0") or 0)
+    if a.tier == "thorough" and not os.environ.get("VERIF_SCENARIO_WALL"):
+        # thorough scenarios are as deep as we can build; each is given a wall-clock budget and reports when it hits it
+        os.environ["VERIF_SCENARIO_WALL"] = "1200"
     prop = a.prop.upper()
     mod = importlib.import_module("mc.props.%s" % prop.lower())
     if a.replay:
